@@ -80,6 +80,10 @@ func (dt DateTime) Validate() error {
 	if !dt.DateTime.IsValid() {
 		return errors.New("invalid date time")
 	}
+	if dt.DateTime.Date.Year < 0 || dt.DateTime.Date.Year > 9999 {
+		// the text form and the published schema only know four-digit years
+		return errors.New("year out of range")
+	}
 	return nil
 }
 
